@@ -229,7 +229,7 @@ def discard_depends_on_extent(ctx):
                'but extends past it is dropped whole (bytes lost, later offsets stuck) or a longer chunk loses to a shorter one')
 
 
-@rule('C16.c', ['C16', 'C02'], floor=3)
+@rule('C16.c', ['C16', 'C02', 'C11'], floor=3)
 def release_is_contiguous(ctx):
     """The release loop compares the smallest queued offset with _next_offset; each
     iteration appends the popped write to the result and advances _next_offset by the
@@ -240,8 +240,11 @@ def release_is_contiguous(ctx):
     ctx.need(loops, 'release loop not found in request_writes')
     loop = loops[0]
     cmp = [x for x in ast.walk(loop.test) if isinstance(x, ast.Compare) and '_next_offset' in norm(x)]
-    ok = bool(cmp) and '_writes[0][0]' in norm(cmp[0]) and isinstance(cmp[0].ops[0], (ast.Eq, ast.LtE))
-    ctx.ob(f, f'while {norm(loop.test)}', ok, 'the release loop must compare the smallest queued offset with the next offset to write')
+    # `<=`, not `==`: a queued entry can come to lie below _next_offset (an overlapping entry queued at
+    # another offset was released past its start); with `==` it - and everything behind it - is never released
+    ok = bool(cmp) and isinstance(cmp[0].ops[0], ast.LtE) and '_writes[0][0]' in norm(cmp[0].left) and '_next_offset' in norm(cmp[0].comparators[0])
+    ctx.ob(f, f'while {norm(loop.test)}', ok, 'the release loop must run while the smallest queued offset is <= the next offset to write '
+                                              '(entries overtaken by an overlapping release must still be drained, trimmed)')
     apps = [c for c in ast.walk(loop) if isinstance(c, ast.Call) and isinstance(c.func, ast.Attribute) and c.func.attr == 'append' and c.args and isinstance(c.args[0], ast.Dict)]
     incs = [n for n in ast.walk(loop) if isinstance(n, ast.AugAssign) and dotted(n.target) == 'self._next_offset' and isinstance(n.op, ast.Add)]
     ctx.ob(f, 'one append and one advance per released write', len(apps) == 1 and len(incs) == 1, f'found {len(apps)} appends and {len(incs)} advances in the release loop')
@@ -272,7 +275,7 @@ def q_stmt(node):
     return enclosing_stmt(node)
 
 
-@rule('C16.d', ['C16', 'C02'], floor=3)
+@rule('C16.d', ['C16', 'C02', 'C10'], floor=3)
 def released_writes_submitted_in_order_atomically(ctx):
     """Every consumer of request_writes (queue_file_io_task and the immediate path of the
     non-seekable manager) holds _io_submit_lock across the request and the use of its
